@@ -123,6 +123,9 @@ def make_value(eng, path, name, kind, tag, fi=None):
         return new_group_shaped(eng, path, name, tag.split(":")[1])
     if kind in ("optname", "name") and tag == "str":
         return SStr([Atom(z3.String(f"{name}"), "name", {"key": name})])
+    if tag in ("absranges", "abschars"):
+        from .symex import AbsSet
+        return AbsSet("range" if tag == "absranges" else "char", _fresh_mem(eng, name))
     if tag in ("True", "False"):
         return tag == "True"
     if tag.startswith("const:"):
@@ -1092,6 +1095,57 @@ def sb_RDISJ_ONE(eng, path, b, upto_b, lo, hi):
     return z3.ForAll([m], z3.Implies(z3.And(m >= 0, m < zterm(upto_b)), z3.Or(zterm(hi.code) < lo2, hi2 < zterm(lo.code))))
 
 
+def _run_parts(el):
+    from .symex import as_run
+    r = as_run(el)
+    return zterm(r.lo.code), zterm(r.hi.code), zterm(r.n)
+
+
+def sb_RUNV(eng, path, lst):
+    """view of a work list of runs: a one-character item denotes that character, a two-character item lo+hi the run lo..hi"""
+    def body(el, x):
+        lo, hi, n = _run_parts(el)
+        return z3.And(lo <= x, x <= hi)
+    return _defined_view(eng, path, lst, body, "run")
+
+
+def sb_PREFIXRUNV(eng, path, lst, upto):
+    n, g = _seq_of(lst)
+    u = zterm(upto)
+
+    def mem(x, g=g, u=u):
+        k = z3.Int("k!prv")
+        lo, hi, nn = _run_parts(g(k))
+        return z3.Exists([k], z3.And(k >= 0, k < u, lo <= x, x <= hi))
+    return View(mem)
+
+
+def sb_WFRUN(eng, path, lst):
+    """every item is one character (n == 1, lo == hi) or two different characters in increasing order (n == 2, lo < hi)"""
+    n, g = _seq_of(lst)
+    if z3.is_int_value(zterm(n)) and zterm(n).as_long() == 0:
+        return True
+    k = z3.Int("k!wfrun")
+    lo, hi, nn = _run_parts(g(k))
+    return z3.ForAll([k], z3.Implies(z3.And(k >= 0, k < zterm(n)),
+                                     z3.And(0 <= lo, hi <= MAXCP, z3.Or(z3.And(nn == 1, lo == hi), z3.And(nn == 2, lo < hi)))))
+
+
+def sb_RSAME(eng, path, a, b):
+    """two work lists of runs are element-wise equal"""
+    na, ga = _seq_of(a)
+    nb, gb = _seq_of(b)
+    k = z3.Int("k!rs")
+    a1, a2, a3 = _run_parts(ga(k))
+    b1, b2, b3 = _run_parts(gb(k))
+    return z3.And(zterm(na) == zterm(nb), z3.ForAll([k], z3.Implies(z3.And(k >= 0, k < zterm(na)), z3.And(a1 == b1, a2 == b2, a3 == b3))))
+
+
+def sb_EV(eng, path, s):
+    """what an abstract item set denotes (any kind)"""
+    return View(_AbsSet.of(eng, path, s).mem)
+
+
 def sb_CLIST_OUT(eng, path, chars, ranges, upto):
     """every character of the list lies outside every range ranges[k], k < upto (element-wise, no views)"""
     n, g = _seq_of(chars)
@@ -1317,7 +1371,10 @@ def ret_modify_classes(eng, path, env, fi, contract):
     from .symex import AbsSet
     src = env["classes"]
     if not isinstance(src, AbsSet):
-        raise Limitation("__modify_classes on a concrete set")
+        src = AbsSet.of(eng, path, src)
+    if env.get("escape") is False:
+        # un-escaping: the same items written without backslashes - same denotation, same kind
+        return AbsSet(src.kind, src.mem)
     j = SStr([Atom(z3.String(f"joined!{eng.fresh_id()}"), "opq", {"key": f"joined{eng.fresh_id()}"})])
     x = z3.Int("x!mc")
     for opening in ("[", "[^"):
